@@ -356,8 +356,8 @@ pub mod sync { pub mod mpsc {
     }
     impl<T> Receiver<T> {
         #[verifier::external_body]
-        pub fn recv(&mut self, held: &mut Held, needs: Ghost<Set<L>>) -> Option<T>
-            requires may_wait_long(*old(held)), join_ok(*old(held), needs@),
+        pub fn recv(&mut self, held: &mut Held, needs: JoinNeeds) -> Option<T>
+            requires may_wait_long(*old(held)), join_ok(*old(held), needs.s@),
             ensures *final(held) == *old(held),
         { unimplemented!() }
     }
@@ -582,3 +582,13 @@ pub fn vx_scopes(scopes: Option<&[&str]>) -> Vec<String> { unimplemented!() }
 pub fn vx_store_configs(config: &mut ClientConfig, fetched: Vec<Value>) { }
 #[verifier::external_body]
 pub fn vx_store_files_configs(config: &mut ClientConfig, fetched: Vec<VscodeFilesConfig>) { }
+
+/// the locks the tasks need whose results a channel `recv` waits for (an erased value handed to `recv` by rule c28-held; unit.py derives which
+/// constructor from the acquisitions inside the spawn bodies of the receiving fn: exactly {analysis}, or — whenever it is anything else — every lock)
+pub struct JoinNeeds { pub s: Ghost<Set<L>> }
+pub open spec fn only_analysis() -> Set<L> { set![L::Analysis] }
+pub fn vx_join_analysis() -> (r: JoinNeeds) ensures r.s@ == only_analysis() { JoinNeeds { s: Ghost(only_analysis()) } }
+pub open spec fn all_locks() -> Set<L> {
+    set![L::ReloadLock, L::WorkspaceManager, L::Analysis, L::DiagnosticTokens, L::WorkspaceDiagnosticToken, L::ResponseManager, L::Cancellations]
+}
+pub fn vx_join_all() -> (r: JoinNeeds) ensures r.s@ == all_locks() { JoinNeeds { s: Ghost(all_locks()) } }
